@@ -38,6 +38,9 @@ func main() {
 		if handled, code := checks.ReplayCrash(os.Args[3]); handled {
 			os.Exit(code)
 		}
+		if handled, code := checks.ReplayKV(os.Args[3]); handled {
+			os.Exit(code)
+		}
 		c, err := checks.Build(id, "quick", seed)
 		if err != nil {
 			fmt.Println("INCONCLUSIVE:", err)
@@ -48,6 +51,9 @@ func main() {
 	if tier != "quick" && tier != "thorough" {
 		fmt.Println("tier must be quick or thorough")
 		os.Exit(2)
+	}
+	if id == "C18" {
+		os.Exit(checks.RunC18(id, tier, seed))
 	}
 	if id == "C05" {
 		os.Exit(checks.RunC05(id, tier, seed))
